@@ -123,6 +123,26 @@ func genC08(t *rapid.T) Case {
 	n := rapid.IntRange(2, 4).Draw(t, "nprocs")
 	c.Progs = drawProgs(t, n, 4, []OpWeights{contention}, hs, c.Cfg.Exact)
 	c.Sched = drawSched(t, n)
+	if rapid.IntRange(0, 4).Draw(t, "emptyAdditionFamily") == 2 {
+		// family: an Addition that is committed and closed without having written a table (the
+		// lock is taken and given back without any commit), next to writers that want the lock;
+		// step-granular segments so that the other writer is inside its transaction in between
+		p := rapid.IntRange(0, n-1).Draw(t, "emptyProc")
+		at := rapid.IntRange(0, len(c.Progs[p].Ops)).Draw(t, "emptyAt")
+		ops := append([]POp{}, c.Progs[p].Ops[:at]...)
+		ops = append(ops, POp{Kind: KAddMulti})
+		c.Progs[p].Ops = append(ops, c.Progs[p].Ops[at:]...)
+		q := (p + 1) % n
+		c.Progs[q].Ops = append([]POp{drawOp(t, OpWeights{KAdd: 3, KAddMulti: 1}, "p"+strconv.Itoa(q)+"/lockwanter", hs, c.Cfg.Exact)}, c.Progs[q].Ops...)
+		c.Sched = SchedSpec{Kind: "segments"}
+		for i := 0; i < rapid.IntRange(3, 8).Draw(t, "nsegsE"); i++ {
+			who := p
+			if i%2 == 1 {
+				who = q
+			}
+			c.Sched.Segs = append(c.Sched.Segs, [2]int{who, rapid.IntRange(1, 14).Draw(t, "segStepsE")})
+		}
+	}
 	return c
 }
 
